@@ -320,6 +320,7 @@ def write_replay(prop, seed, run_index, choices, orig_len, res, n):
         "property": prop,
         "engine_version": ENGINE_VERSION,
         "verif_seed": seed,
+        "tier": os.environ.get("TOASTYSIM_TIER", "quick"),
         "run_index": run_index,
         "choices": choices,
         "original_choices_len": orig_len,
@@ -341,8 +342,9 @@ def replay_file(prop, path):
     """Re-execute a replay file in this (fresh) interpreter.  Exit status:
     1 + VIOLATION line if it reproduces, 2 if it does not (harness error)."""
     setup_process()
-    mod = load_prop(prop)
     doc = json.load(open(path))
+    os.environ["TOASTYSIM_TIER"] = doc.get("tier", "quick")
+    mod = load_prop(prop)
     res = run_replay(mod, doc["choices"], keep_kinds=True)
     if "harness_error" in res:
         print("HARNESS-ERROR replay raised: %s" % res["harness_error"])
@@ -373,6 +375,7 @@ def verify_replay_fresh(prop, path):
 
 def check(prop, tier="quick", seed=0, runs=None, jobs=None, max_s=None, out=sys.stdout):
     t0 = time.time()
+    os.environ["TOASTYSIM_TIER"] = tier     # some workloads are larger in the thorough tier; recorded in replay files
     mod = load_prop(prop)
     b_runs, b_s = mod.BUDGET[tier]
     if runs is None:
